@@ -6,6 +6,7 @@ S=${SLOT:-}
 WT=/tmp/mut_repo$S
 if [ "$1" = "--clean" ]; then git -C /repo worktree remove --force $WT 2>/dev/null; rm -rf /tmp/mut_work$S /tmp/mut_evidence$S; exit 0; fi
 PATCH="$1"; shift
+exec 9>/tmp/mut_repo$S.lock; flock 9   # one user per slot at a time
 [ -d $WT ] || git -C /repo worktree add -q --detach $WT || exit 2
 git -C $WT checkout -q --detach "$(git -C /repo rev-parse HEAD)"; git -C $WT checkout -q -- . ; git -C $WT clean -qfd -- .
 git -C $WT apply "$PATCH" || { echo "patch does not apply"; exit 2; }
